@@ -229,6 +229,23 @@ theorem bip85_is_hmac (hm : Bytes → Bytes → Bytes) (key : Bytes) :
   unfold bip85Entropy
   congr 1
 
+/-- BIP85's Language Table as the BIP prints it (English 0', Japanese 1', Korean 2', Spanish 3', Chinese
+    (Simplified) 4', Chinese (Traditional) 5', French 6', Italian 7', Czech 8', Portuguese 9') is the table the source
+    holds, and the application numbers in the derivation paths are the BIP's (BIP39 39', WIF 2', XPRV 32',
+    HEX 128169', PWD BASE64 707764', PWD BASE85 707785', DICE 89101') -/
+theorem bip85_tables_are_the_bips :
+    Gen.Mnemonic.BIP85_LANGUAGES =
+      [("en", 0), ("ja", 1), ("ko", 2), ("es", 3), ("zh", 4), ("zh_tw", 5), ("fr", 6), ("it", 7), ("cs", 8), ("pt", 9)] ∧
+    Gen.Mnemonic.BIP85_APPLICATIONS =
+      [("bip39", 39), ("wif_from_root_key", 2), ("xprv_from_root_key", 32), ("bytes_entropy_from_root_key", 128169),
+       ("base64_password_from_root_key", 707764), ("base85_password_from_root_key", 707785),
+       ("rolls_from_root_key", 89101)] ∧
+    Gen.Mnemonic.BIP85_PURPOSE = 83696968 ∧
+    Gen.Mnemonic.BIP85_ENTROPY_BYTES = [(12, 16), (15, 20), (18, 24), (21, 28), (24, 32)] ∧
+    bip85Bip39Path "zh" 12 7 = some [83696968, 39, 4, 12, 7] ∧
+    bip85Bip39Path "zh_tw" 24 0 = some [83696968, 39, 5, 24, 0] := by
+  decide
+
 /-! ## dispatch — which scheme claims a sentence -/
 
 /-- `dispatch._bip39_seed_type(mnemonic, lang)`: for a sentence of 12..24 words all in the NAMED language's list,
